@@ -30,6 +30,11 @@ class C12(Prop):
                   "programme are outside Lean; sizes kept below 20 alternatives so the 5% MIP gap cannot hide a unit")
     technique = "Lean-verified certificate checkers and brute-force optima; differential correspondence on optimum and certificate"
     theorems = [
+        "PrefVerif.C12DP.deletion_cert",
+        "PrefVerif.C12DP.axis_removed_perm",
+        "PrefVerif.C12DP.axis_nodup",
+        "PrefVerif.C12DP.axis_spOnSubset",
+        "PrefVerif.C12DP.axis_ne_nil",
         "PrefVerif.ILPP.votdel_axis_feasible",
         "PrefVerif.ILPP.votdel_feasible_axis",
         "PrefVerif.ILPP.altdel_feasible_axis",
@@ -142,6 +147,8 @@ class C12(Prop):
             certs["dp_axis"], certs["dp_deleted"] = r[1]["axis"], r[1]["removed"]
         reqs = [{"op": "dom.nearly", "alts": alts, "orders": case["orders"], "brute": len(alts) <= 6,
                  "certs": certs}]
+        if case["type"] == "soc":
+            reqs.append({"op": "kalt.deletion", "alts": alts, "orders": [[c[0] for c in o] for o in case["orders"]]})
         self._cap_order = []
         for fname, which in (("approx_SP_voter_deletion_ILP", "votdel"), ("approx_SP_alternative_deletion_ILP", "altdel")):
             cap = obs.get("captures", {}).get(fname)
@@ -180,7 +187,8 @@ class C12(Prop):
         from harness import ilpcap
         fnames = [f for f in ("approx_SP_voter_deletion_ILP", "approx_SP_alternative_deletion_ILP")
                   if obs.get("captures", {}).get(f) is not None]
-        for fname, mrep in zip(fnames, replies[1:]):
+        dp_model = replies[1] if case["type"] == "soc" else None
+        for fname, mrep in zip(fnames, replies[(2 if case["type"] == "soc" else 1):]):
             cap = obs["captures"][fname]
             mine, theirs = Counter(ilpcap.model_constraints(mrep)), Counter(cap["constraints"])
             if mine != theirs:
@@ -208,6 +216,13 @@ class C12(Prop):
                     P("the two alternative-deletion methods report different optima on a strict profile", "agree")
                 if case["kind"] == "dp" and len(v["removed"]) != 0:
                     P("k_alternative_deletion removes alternatives from a single-peaked profile", "dp/optimum")
+                if dp_model is not None:
+                    # statement-faithful Lean model of the dynamic programme (incl. CPython set order)
+                    if len(dp_model["removed"]) != len(v["removed"]):
+                        out.append(Problem("disagreement", case, f"model removes {dp_model['removed']}, implementation "
+                                           f"{v['removed']}", "model/dp"))
+                    elif dp_model["axis"] != v["axis"]:
+                        self.count("dp-axis-drift")
         return out
 
     def shrink_candidates(self, case):
